@@ -85,12 +85,12 @@ def composition(m, n):
 def solid(m, Tk, derived=True, kg=True):
     """the C19 clause for a solid at Tk (K): returns (dL/L %, pseudoDensity, density)"""
     Tc = Tk - K0
+    d3 = m.density(Tk=Tk)
+    assert d3 > 0, "density is positive"
     p = m.linearExpansionPercent(Tk=Tk)
     f = 1.0 + p / 100.0
     assert f > 0, "finite positive linear expansion factor"
-    d3 = m.density(Tk=Tk)
     d2 = m.pseudoDensity(Tk=Tk)
-    assert d3 > 0, "density is positive"
     assert d2 > 0, "pseudoDensity is positive"
     if derived:
         assert eq(d2, d3 * f), "pseudoDensity = density x linear expansion factor"
@@ -180,36 +180,36 @@ InconelX750 = mat("inconelX750:InconelX750")
 Inconel800 = mat("inconel800:Inconel800")
 
 
-def inconel_contract(cls, Tc, n):
+def inconel_contract(cls, Tc, Ta, n):
     """Inconel 600 / 625 / X750: quadratic dL/L in Tc (key "linear expansion percent", C), linear coefficient (key
     "linear expansion", C)"""
     stated_range(cls, "linear expansion percent", "C", Tc)
-    stated_range(cls, "linear expansion", "C", Tc)
     m = cls()
     composition(m, n)
     p, d2, d3 = solid(m, Tc + K0)
-    a = m.linearExpansion(Tc=Tc)
-    assert a > 0 and a < 1e-4, "finite positive instantaneous expansion coefficient"
-    assert eq(m.linearExpansion(Tk=Tc + K0), a)
+    stated_range(cls, "linear expansion", "C", Ta)
+    a = m.linearExpansion(Tc=Ta)
+    assert a > 0 and a < 1e-4, "finite positive instantaneous expansion coefficient on ITS stated range"
+    assert eq(m.linearExpansion(Tk=Ta + K0), a)
     assert d2 < m.refDens * 1.001 and d3 < m.refDens * 1.001, "never denser than the reference density (beyond the fit offset at 21 C)"
 
 
-@lemma(gen={"Tc": (21.0, 900.0)})
-def inconel600(Tc: float):
-    """Inconel600, all Tc in [21, 900] C"""
-    inconel_contract(Inconel600, Tc, 8)
+@lemma(gen={"Tc": (21.0, 900.0), "Ta": (21.0, 900.0)})
+def inconel600(Tc: float, Ta: float):
+    """Inconel600, all Tc (dL/L, densities) and all Ta (coefficient) in [21, 900] C"""
+    inconel_contract(Inconel600, Tc, Ta, 8)
 
 
-@lemma(gen={"Tc": (21.0, 927.0)})
-def inconel625(Tc: float):
-    """Inconel625, all Tc in [21, 927] C"""
-    inconel_contract(Inconel625, Tc, 13)
+@lemma(gen={"Tc": (21.0, 927.0), "Ta": (21.0, 927.0)})
+def inconel625(Tc: float, Ta: float):
+    """Inconel625, all Tc (dL/L, densities) and all Ta (coefficient) in [21, 927] C"""
+    inconel_contract(Inconel625, Tc, Ta, 13)
 
 
-@lemma(gen={"Tc": (21.1, 982.2)})
-def inconel_x750(Tc: float):
-    """InconelX750, all Tc in [21.1, 982.2] C"""
-    inconel_contract(InconelX750, Tc, 12)
+@lemma(gen={"Tc": (21.1, 982.2), "Ta": (21.1, 982.2)})
+def inconel_x750(Tc: float, Ta: float):
+    """InconelX750, all Tc (dL/L, densities) and all Ta (coefficient) in [21.1, 982.2] C"""
+    inconel_contract(InconelX750, Tc, Ta, 12)
 
 
 @lemma(gen={"Tc": (20.0, 800.0)})
@@ -271,8 +271,8 @@ def tzm(Tc: float):
 Zr = mat("zr:Zr")
 
 
-@lemma(gen={"Tk": (293.0, 1800.0)})
-def zr(Tk: float):
+@lemma(gen={"Tk": (293.0, 1800.0), "Ta": (293.0, 1800.0)})
+def zr(Tk: float, Ta: float):
     """Zr, all Tk in [293, 1800] K (key "linear expansion percent"; the constructor's density(298.15 K) under key
     "density"): two cubics, switching at the alpha-beta transition 1137 K (both pieces covered)"""
     stated_range(Zr, "linear expansion percent", "K", Tk)
@@ -286,8 +286,10 @@ def zr(Tk: float):
     else:
         cover("beta")
     assert p > -0.01 and p < 1.2
-    a = m.linearExpansion(Tk=Tk)
-    assert 5.7e-6 <= a and a <= 1.13e-5, "instantaneous coefficient: np.interp stays inside the table"
+    stated_range(Zr, "linear expansion", "K", Ta)
+    a = m.linearExpansion(Tk=Ta)
+    assert 5.7e-6 <= a and a <= 1.13e-5, "instantaneous coefficient on ITS stated range: np.interp stays inside the table"
+    assert eq(m.linearExpansion(Tc=Ta - K0), a)
 
 
 Alloy200 = mat("alloy200:Alloy200")
@@ -320,7 +322,9 @@ def thorium_and_thu(Tk: float):
         composition(m, n)
         p, d2, d3 = solid(m, Tk)
         assert p == 0 and d2 == 11.68 and d3 == 11.68
-        if 30 <= Tk and Tk <= 600:
+        (alo, ahi), u = cls.propertyValidTemperature["linear expansion"]
+        assert u == "K" and alo < ahi
+        if alo <= Tk and Tk <= ahi:
             assert m.linearExpansion(Tk=Tk) == 11.9e-6
 
 
@@ -377,6 +381,7 @@ def sic(Tc: float):
     assert d2 <= 3.16 and d2 > 3.16 * 0.97, "at most 1 % linear growth over the range"
     cA = m.cumulativeLinearExpansion(Tc=Tc)
     assert cA > 0.7e-6 and cA < 5.5e-6
+    assert eq(d2 * (1.0 + cA * Tc) ** 3, 3.16), "the class's own stated equation propertyEquation['density']: rho0 (1 + cA (Tc - 0))^-3"
 
 
 # ----------------------------------------------------------------------------- SimpleSolid: expansion derived from density
@@ -454,6 +459,7 @@ def nacl(Tk: float):
     assume(0 <= Tk and Tk * 0.000313 < 2.23)
     m = NaCl()
     composition(m, 3)
+    assert m.refDens > 0, "the reference density (density at 300 K, inside the range) is positive"
     p, d2, d3 = solid(m, Tk)
     assert implies(Tk >= 300, p >= 0) and implies(Tk <= 300, p <= 0), "expands above the reference temperature, contracts below"
 
@@ -463,12 +469,14 @@ UO2 = mat("uraniumOxide:UO2")
 MOX = mat("mox:MOX")
 
 
-def oxide_fuel(cls, Tk, n):
-    """UraniumOxide / UO2 / MOX: density (own quadratic) on "density" [300, 3100] K; dL/L (two cubics switching at
-    923 K) on "linear expansion percent" [273, 3123] K; pseudoDensity = rho(300 K)/f^2 x TD on the latter"""
+def oxide_fuel(cls, Tk, Td, Ta, n):
+    """UraniumOxide / UO2 / MOX, each property on ITS stated range: dL/L (two cubics switching at 923 K) and
+    pseudoDensity = rho(300 K)/f^2 x TD for all Tk in "linear expansion percent" [273, 3123] K; density (own quadratic)
+    for all Td in "density" [300, 3100] K; the coefficient for all Ta in "linear expansion" [273, 3120] K"""
     table_is_physical("U235", "U238", "O")
     lo, hi = stated_range(cls, "linear expansion percent", "K", Tk)
     assert lo == 273 and hi == 3123.0
+    stated_range(cls, "density", "K", cls.refTempK)
     m = cls()
     composition(m, n)
     assert eq(m.refDens, 10.9805 - 1.29933e-4 * 300 - 1.01147e-7 * 90000), "SimpleSolid-style reference density = density(300 K)"
@@ -486,35 +494,35 @@ def oxide_fuel(cls, Tk, n):
     assert eq(d2 * f * f, m.refDens), "2-d expansion of the reference density"
     assert eq(m.pseudoDensityKgM3(Tk=Tk), 1000.0 * d2)
     assert eq(m.pseudoDensity(Tc=Tk - K0), d2) and eq(m.linearExpansionPercent(Tc=Tk - K0), p)
-    (dlo, dhi), u = cls.propertyValidTemperature["density"]
-    assert u == "K"
-    if dlo <= Tk and Tk <= dhi:
-        d3 = m.density(Tk=Tk)
-        assert d3 > 9.5 and d3 < 10.95, "density is positive (own quadratic)"
-        assert eq(m.densityKgM3(Tk=Tk), 1000.0 * d3) and eq(m.density(Tc=Tk - K0), d3)
-    (alo, ahi), u = cls.propertyValidTemperature["linear expansion"]
-    if alo <= Tk and Tk <= ahi:
-        a = m.linearExpansion(Tk=Tk)
-        assert a > 9e-6 and a < 2e-5, "finite positive instantaneous coefficient"
+    stated_range(cls, "density", "K", Td)
+    d3 = m.density(Tk=Td)
+    assert d3 > 9.5 and d3 < 10.95, "density is positive (own quadratic)"
+    assert eq(m.densityKgM3(Tk=Td), 1000.0 * d3) and eq(m.density(Tc=Td - K0), d3)
+    stated_range(cls, "linear expansion", "K", Ta)
+    a = m.linearExpansion(Tk=Ta)
+    assert a > 9e-6 and a < 2e-5, "finite positive instantaneous coefficient"
 
 
-@lemma(gen={"Tk": (273.0, 3123.0)}, overrides=OV)
-def uranium_oxide(Tk: float):
+OXGEN = {"Tk": (273.0, 3123.0), "Td": (300.0, 3100.0), "Ta": (273.0, 3120.0)}
+
+
+@lemma(gen=OXGEN, overrides=OV)
+def uranium_oxide(Tk: float, Td: float, Ta: float):
     """UraniumOxide, all Tk of the stated ranges (see oxide_fuel).  Collaborator: nuclide directory = TABLE (arbitrary
     positive weights, abundances in [0, 1]): the natural-uranium composition sums to one for any of them"""
-    oxide_fuel(UraniumOxide, Tk, 3)
+    oxide_fuel(UraniumOxide, Tk, Td, Ta, 3)
 
 
-@lemma(gen={"Tk": (273.0, 3123.0)}, overrides=OV)
-def uo2(Tk: float):
+@lemma(gen=OXGEN, overrides=OV)
+def uo2(Tk: float, Td: float, Ta: float):
     """UO2 (subclass of UraniumOxide, renamed): same contract"""
-    oxide_fuel(UO2, Tk, 3)
+    oxide_fuel(UO2, Tk, Td, Ta, 3)
 
 
-@lemma(gen={"Tk": (273.0, 3123.0)}, overrides=OV)
-def mox(Tk: float):
+@lemma(gen=OXGEN, overrides=OV)
+def mox(Tk: float, Td: float, Ta: float):
     """MOX: UraniumOxide's correlations with the JOYO composition (9 nuclides, 6-digit data: sums to one within 1e-6)"""
-    oxide_fuel(MOX, Tk, 9)
+    oxide_fuel(MOX, Tk, Td, Ta, 9)
 
 
 @lemma(native=False)
